@@ -180,7 +180,7 @@ class SKI(Default):
     name = "ski"
 
     def kernel(self, lik):
-        return gpytorch.kernels.ScaleKernel(gpytorch.kernels.GridInterpolationKernel(gpytorch.kernels.RBFKernel(), grid_size=12, num_dims=D, grid_bounds=[(-4.0, 4.0)] * D))
+        return gpytorch.kernels.ScaleKernel(gpytorch.kernels.GridInterpolationKernel(gpytorch.kernels.RBFKernel(), grid_size=12, num_dims=D, grid_bounds=[(-4.0, 4.0) if not getattr(self, "alt", False) else (-5.0, 6.0)] * D))
 
 
 class SKIDyn(Default):
